@@ -400,3 +400,28 @@ def midnight_gap_days():
             d += datetime.timedelta(days=1)
     _GAPS = out
     return out
+
+
+_LONGDAYS = None
+def long_local_days():
+    """[(zone, utc offset in seconds at 00:00 UTC of the date, datetime.date)]: dates D such that the LOCAL calendar day containing the instant D 00:00 UTC
+    covers two UTC midnights (a 25-hour day in a zone whose offset passes through zero: Atlantic/Azores, America/Scoresbysund on their fall-back days).
+    A day window built in the local zone selects two log days there."""
+    global _LONGDAYS
+    if _LONGDAYS is not None: return _LONGDAYS
+    import zoneinfo, datetime
+    UTC = datetime.timezone.utc; out = []
+    for z in ["Atlantic/Azores", "America/Scoresbysund", "Europe/Lisbon", "Europe/London", "Africa/Casablanca", "Atlantic/Canary", "Atlantic/Reykjavik"]:
+        try: tz = zoneinfo.ZoneInfo(z)
+        except Exception: continue
+        d = datetime.date(2015, 1, 1)
+        while d < datetime.date(2024, 1, 1):
+            now = datetime.datetime(d.year, d.month, d.day, tzinfo=UTC); loc = now.astimezone(tz)
+            s0 = datetime.datetime(loc.year, loc.month, loc.day, 0, 0, 0, tzinfo=tz).astimezone(UTC)
+            e0 = datetime.datetime(loc.year, loc.month, loc.day, 23, 59, 59, tzinfo=tz).astimezone(UTC)
+            m0 = datetime.datetime(s0.year, s0.month, s0.day, tzinfo=UTC)
+            n = sum(1 for k in range(-1, 3) if s0 <= m0 + datetime.timedelta(days=k) <= e0)
+            if n != 1: out.append((z, int(loc.utcoffset().total_seconds()), d))
+            d += datetime.timedelta(days=1)
+    _LONGDAYS = out
+    return out
